@@ -7,6 +7,7 @@ from spverif.core.util import attempt, exc_sig, rand_uint, rand_bytes
 from spverif.ref import cfdp as R
 from . import _cfdp as C
 
+SCRIBBLE = True
 ID = "C07"
 LEVEL = "exploration"
 SHARDS = {"quick": 1, "thorough": 16}
@@ -168,6 +169,8 @@ def selftest(ctx):
 
 
 def run(ctx):
+    from spverif.san import scribble
+    scribble.install()
     r = ctx.rng
     i = 0
     # all 64 metadata lengths x 4 states
@@ -225,6 +228,7 @@ def run(ctx):
 
 
 def conclude(ctx):
+    ctx.require(ctx.extra.get("hostile_caller_scribbled_pack_results", 0) > 0, "hostile-caller sanitizer scribbled no pack() result")
     for crc in (0, 1):
         for large in (0, 1):
             for meta in "yn":
